@@ -410,6 +410,7 @@ class DiffRHS(object):
         or a pytorch jacrev functional transform        
         """
         self.__jac = None
+        self.__jac_initialised = False
 
     def set_jac_base_order(self, order):
         if self.__jac_is_wrapped_rhs:
